@@ -408,6 +408,24 @@ func TestC05Generated(t *testing.T) {
 		}
 	}
 
+	// print_stmt.go: every function and every statement case, with the directed
+	// snippet (each run alone as a probe) that prints it with all optional parts present
+	if shard == 0 {
+		r.Note("print_stmt.go coverage by directed snippets: " +
+			"[x] printBlock (empty {} / with statements / trailing inner comments): nested-blocks, comment probes; " +
+			"[x] printIf (init; cond; else-if chain with init in every arm; final else): init-clause-first-if, init-clause-else-if-2-arms, init-clause-else-if-4-arms, init-clause-else-if-falls-to-else, if-init, if-else-chain; " +
+			"[x] printFor (range key,value := / key only / =; three-clause with init+cond+post; cond only; infinite): for-range-variable, for-range-int, for-range-call, init-clause-for-three, for-three-clause, for-conditional, for-infinite-break; " +
+			"[x] printSwitch (init; tag / tag only / tagless; `switch init; {` without a tag is rejected by the ego compiler (missing ':'), so it is out of scope) + printCaseClause (multi-expr case, default, fallthrough): init-clause-switch-tag, switch-init, switch-tag, switch-conditional, switch-fallthrough; " +
+			"[x] printTry (catch with and without variable): try-catch, stmt-kinds-misc; " +
+			"[x] printPrint (one and several args; the trailing-comma form joins the next line in the tokenizer and is not used): print-statement, stmt-kinds-misc; " +
+			"[x] printDirective (@assert with expression): stmt-kinds-misc and every corpus test file (@test, @assert, @fail ...); " +
+			"[x] printImport/printImportSpec (grouped, single, alias): every program (grouped or single), import-alias-decl; " +
+			"[x] printConst/printConstSpec (single, grouped, typed/untyped): const-decls; [x] printVar/printVarSpec (single, grouped, names+type+values): var-decls; " +
+			"[x] printFuncDecl (receiver value/pointer, params, results, named result): struct-type-literal, func-multi-return, variadic; " +
+			"[x] printStmt cases AssignStmt/IncDecStmt (assignment-forms), SendStmt (goroutine-channel, stmt-kinds-misc), ReturnStmt (return-forms), Break/Continue with label + LabeledStmt (labeled-loops), DeferStmt (defer), GoStmt (goroutine-channel, waitgroup), PanicStmt + ThrowStmt (stmt-kinds-misc), TypeDecl (type-alias-decl, struct-type-literal, interface-assert), PackageDecl (every program), ExprStmt (every program); " +
+			"[ ] CallStmt (`call f()`) and ExitStmt (`exit n`): not in a directed snippet (exit ends the host-less run; `call` is covered only where corpus files use it)")
+	}
+
 	// (a) probes: every snippet alone, undecorated, full oracle (first shard only).
 	for _, s := range snippetLib {
 		if shard != 0 {
